@@ -111,6 +111,10 @@ def _type(it, fr, a, k):
 @builtin("id")
 def _id(it, fr, a, k):
     v = a[0]
+    if isinstance(v, (Opaque, Obj)) and hasattr(v, "m_id"):
+        return v.m_id(it)
+    if isinstance(v, Obj) and "__id__" in v.fields:
+        return v.fields["__id__"]
     hook = it.spec.opaque_hooks.get("id")
     if hook:
         return hook(it, v)
@@ -205,6 +209,12 @@ def _list(it, fr, a, k):
         hook = it.spec.opaque_hooks.get("list_of_stream")
         if hook:
             return hook(it, a[0])
+        if a[0].meta.get("snapshot_ok"):
+            return SymStream(a[0].name, a[0].elem, a[0].length, a[0].on_exhaust, dict(a[0].meta, kind="list"))
+    if isinstance(a[0], Opaque) and hasattr(a[0], "m_iter"):
+        s0 = a[0].m_iter(it)
+        if isinstance(s0, SymStream):
+            return SymStream(s0.name, s0.elem, s0.length, s0.on_exhaust, dict(s0.meta, kind="list"))
     return PyList(it.to_list(a[0]))
 
 
